@@ -682,4 +682,104 @@ theorem pppoe_step (ps : List LayerInfo) (p : PPPoE) (os : List AnyObj) (hinv : 
   | l2 y r => rw [hn] at hlink; simp [Link] at hlink
   | bad => rw [hn] at hlink; simp [Link] at hlink
 
+/-! ### all classes: the step over the family interface the registry uses -/
+
+private theorem parseOne_of {α} (cls : String) (b : Bytes) (pr : Bytes → Out (α × Inner)) (mk : α → Obj) (a : α) (i : Inner)
+    (hc : L2.parse cls b = (pr b >>= fun (e, i) => pure (mk e, i))) (hr : (cls == "RawPDU") = false)
+    (hm : L2.classes.contains cls = true) (h : pr b = .ok (a, i)) :
+    parseOne cls b = .ok (.l2 (mk a), i) := by
+  unfold parseOne
+  rw [if_neg (by rw [hr]; exact Bool.false_ne_true), if_pos hm, hc, h]
+  rfl
+
+theorem parseOne_eth (b : Bytes) (e : Eth) (i : Inner) (h : Eth.parse b = .ok (e, i)) :
+    parseOne "EthernetII" b = .ok (.l2 (.eth e), i) := parseOne_of _ b Eth.parse .eth e i rfl (by decide) (by decide) h
+theorem parseOne_dot3 (b : Bytes) (e : Dot3) (i : Inner) (h : Dot3.parse b = .ok (e, i)) :
+    parseOne "Dot3" b = .ok (.l2 (.dot3 e), i) := parseOne_of _ b Dot3.parse .dot3 e i rfl (by decide) (by decide) h
+theorem parseOne_llc (b : Bytes) (e : Llc) (i : Inner) (h : Llc.parse b = .ok (e, i)) :
+    parseOne "LLC" b = .ok (.l2 (.llc e), i) := parseOne_of _ b Llc.parse .llc e i rfl (by decide) (by decide) h
+theorem parseOne_snap (b : Bytes) (e : Snap) (i : Inner) (h : Snap.parse b = .ok (e, i)) :
+    parseOne "SNAP" b = .ok (.l2 (.snap e), i) := parseOne_of _ b Snap.parse .snap e i rfl (by decide) (by decide) h
+theorem parseOne_dot1q (b : Bytes) (e : Dot1Q) (i : Inner) (h : Dot1Q.parse b = .ok (e, i)) :
+    parseOne "Dot1Q" b = .ok (.l2 (.dot1q e), i) := parseOne_of _ b Dot1Q.parse .dot1q e i rfl (by decide) (by decide) h
+theorem parseOne_mpls (b : Bytes) (e : Mpls) (i : Inner) (h : Mpls.parse b = .ok (e, i)) :
+    parseOne "MPLS" b = .ok (.l2 (.mpls e), i) := parseOne_of _ b Mpls.parse .mpls e i rfl (by decide) (by decide) h
+theorem parseOne_pppoe (b : Bytes) (e : PPPoE) (i : Inner) (h : PPPoE.parse b = .ok (e, i)) :
+    parseOne "PPPoE" b = .ok (.l2 (.pppoe e), i) := parseOne_of _ b PPPoE.parse .pppoe e i rfl (by decide) (by decide) h
+theorem parseOne_sll (b : Bytes) (e : Sll) (i : Inner) (h : Sll.parse b = .ok (e, i)) :
+    parseOne "SLL" b = .ok (.l2 (.sll e), i) := parseOne_of _ b Sll.parse .sll e i rfl (by decide) (by decide) h
+theorem parseOne_loopback (b : Bytes) (e : Loopback) (i : Inner) (h : Loopback.parse b = .ok (e, i)) :
+    parseOne "Loopback" b = .ok (.l2 (.loopback e), i) :=
+  parseOne_of _ b Loopback.parse .loopback e i rfl (by decide) (by decide) h
+
+theorem take_drop_full (region : Bytes) (h n : Nat) (hl : region.length = h + n) : (region.drop h).take n = region.drop h :=
+  List.take_of_length_le (by simp only [List.length_drop]; omega)
+
+/-- **the one-layer step of whole-packet C03, every class of the family**: layer `x` (invariant, linked to what follows
+    it in the stack `os`) is written around the bytes `io` of its inner chain into the region `PDU::serialize` hands it;
+    parsing the result followed by `k` zero bytes (padding of an outer layer; only below EthernetII / Dot1Q, i.e. for
+    Dot1Q / MPLS / PPPoE with a parent) gives a layer `x'` of the same class with the same view, and the decision about
+    the inner PDU described by `StepInner`: the class that follows in `os` on `io` plus padding, or the end of the stack -/
+theorem l2_step (ps : List LayerInfo) (x : Obj) (os : List AnyObj) (hinv : ObjInv x) (hlink : Link x (next os))
+    (k : Nat) (hk : k = 0 ∨ (ps ≠ [] ∧ EtherTier x)) (region io : Bytes)
+    (hlen : region.length = hdr x + (cxOf ps os).innerSize + trl x (cxOf ps os).innerSize)
+    (hio : (region.drop (hdr x)).take (cxOf ps os).innerSize = io) (hiol : io.length = (cxOf ps os).innerSize)
+    (hnil : os = [] → io = []) (hraw : ∀ p, os = [.raw p] → io = p) (hpos : ∀ y r, os = .l2 y :: r → 0 < io.length) :
+    ∃ out x' inner, write (cxOf ps os) x region = .ok out ∧ out.length = region.length ∧
+      parseOne (info x).1 (out ++ List.replicate k 0) = .ok (.l2 x', inner) ∧
+      layerView false (.l2 x') = layerView false (.l2 x) ∧
+      StepInner x x' os io (trl x (cxOf ps os).innerSize + k) inner := by
+  have hk0 : ¬ EtherTier x → k = 0 := fun hn => by rcases hk with h | h; exact h; exact absurd h.2 hn
+  cases x with
+  | eth e =>
+    have := hk0 (by simp [EtherTier]); subst this
+    rcases eth_step ps e os hinv hlink region io hlen hio hnil hraw with ⟨out, e', inner, hw, hl, hp, hv, hs⟩
+    exact ⟨out, .eth e', inner, hw, hl, by rw [List.replicate_zero, List.append_nil]; exact parseOne_eth _ _ _ hp, hv, hs⟩
+  | dot3 d =>
+    have := hk0 (by simp [EtherTier]); subst this
+    simp only [hdr, trl, Nat.add_zero] at hlen hio
+    rw [take_drop_full region 14 _ hlen] at hio
+    rcases dot3_step ps d os hinv hlink region io hlen hio hiol hpos with ⟨out, e', inner, hw, hl, hp, hv, hs⟩
+    exact ⟨out, .dot3 e', inner, hw, hl, by rw [List.replicate_zero, List.append_nil]; exact parseOne_dot3 _ _ _ hp, hv, hs⟩
+  | llc l =>
+    have := hk0 (by simp [EtherTier]); subst this
+    simp only [hdr, trl, Nat.add_zero] at hlen hio
+    rw [take_drop_full region l.hdr _ hlen] at hio
+    rcases llc_step ps l os hinv hlink region io hlen hio hnil hraw with ⟨out, e', inner, hw, hl, hp, hv, hs⟩
+    exact ⟨out, .llc e', inner, hw, hl, by rw [List.replicate_zero, List.append_nil]; exact parseOne_llc _ _ _ hp, hv, hs⟩
+  | snap s =>
+    have := hk0 (by simp [EtherTier]); subst this
+    simp only [hdr, trl, Nat.add_zero] at hlen hio
+    rw [take_drop_full region 8 _ hlen] at hio
+    rcases snap_step ps s os hinv hlink region io hlen hio hiol hnil hraw hpos with ⟨out, e', inner, hw, hl, hp, hv, hs⟩
+    exact ⟨out, .snap e', inner, hw, hl, by rw [List.replicate_zero, List.append_nil]; exact parseOne_snap _ _ _ hp, hv, hs⟩
+  | dot1q q =>
+    rcases dot1q_step ps q os hinv hlink region io k hlen hio hiol hnil hraw hpos with ⟨out, e', inner, hw, hl, hp, hv, hs⟩
+    exact ⟨out, .dot1q e', inner, hw, hl, parseOne_dot1q _ _ _ hp, hv, hs⟩
+  | mpls m =>
+    simp only [hdr, trl, Nat.add_zero] at hlen hio
+    rw [take_drop_full region 4 _ hlen] at hio
+    rcases mpls_step ps m os hinv hlink region io k (by rcases hk with h | h; exact .inl h; exact .inr h.1) hlen hio hiol
+      hnil hraw hpos with ⟨out, e', inner, hw, hl, hp, hv, hs⟩
+    exact ⟨out, .mpls e', inner, hw, hl, parseOne_mpls _ _ _ hp, hv, by simpa [trl] using hs⟩
+  | pppoe p =>
+    simp only [hdr, trl, Nat.add_zero] at hlen hio
+    rw [take_drop_full region p.hdr _ hlen] at hio
+    rcases pppoe_step ps p os hinv hlink region io k hlen hio hraw with ⟨out, e', inner, hw, hl, hp, hv, hs⟩
+    exact ⟨out, .pppoe e', inner, hw, hl, parseOne_pppoe _ _ _ hp, hv, by simpa [trl] using hs⟩
+  | sll s =>
+    have := hk0 (by simp [EtherTier]); subst this
+    simp only [hdr, trl, Nat.add_zero] at hlen hio
+    rw [take_drop_full region 16 _ hlen] at hio
+    rcases sll_step ps s os hinv hlink region io hlen hio hiol hnil hraw hpos with ⟨out, e', inner, hw, hl, hp, hv, hs⟩
+    exact ⟨out, .sll e', inner, hw, hl, by rw [List.replicate_zero, List.append_nil]; exact parseOne_sll _ _ _ hp, hv, hs⟩
+  | loopback l =>
+    have := hk0 (by simp [EtherTier]); subst this
+    simp only [hdr, trl, Nat.add_zero] at hlen hio
+    rw [take_drop_full region 4 _ hlen] at hio
+    rcases loopback_step ps l os hinv hlink region io hlen hio hnil hraw with ⟨out, e', inner, hw, hl, hp, hv, hs⟩
+    exact ⟨out, .loopback e', inner, hw, hl, by rw [List.replicate_zero, List.append_nil]; exact parseOne_loopback _ _ _ hp, hv, hs⟩
+  | ppi p => cases hn : next os <;> rw [hn] at hlink <;> simp [Link] at hlink
+  | pktap p => cases hn : next os <;> rw [hn] at hlink <;> simp [Link] at hlink
+
 end Tins.Wire.L2
